@@ -209,11 +209,15 @@ def rule_announce(program, ctx):
     else:
         ctx.bad(finding_func(P, rid, np_, "notify_other_processes no longer sends through self.notifier when it exists", text="def notify_other_processes(...)"))
     su = program.func("nostr_relay.storage.base:BaseStorage.setup")
-    t = next((n for n in walk_no_nested(su) if isinstance(n, ast.If) and ast.unparse(n.test) == "Config.should_run_notifier"), None)
-    if t is not None and any(isinstance(c, ast.Call) and call_name(c) == "NotifyClient" for c in ast.walk(ast.Module(body=t.body, type_ignores=[]))) and any(isinstance(c, ast.Call) and call_name(c) == "self.notifier.start" for s in t.body for c in ast.walk(s)):
-        ctx.ok(rid, t, "setup: NotifyClient created and started iff Config.should_run_notifier")
+    cfgs = cfg_of(su)
+    passes = test_edges(cfgs, lambda e, p: p and dotted(e) == "Config.should_run_notifier")
+    mk = cfgs.stmt_nodes(lambda s: any(call_name(c) == "NotifyClient" for c in own_calls(s)), kinds=("stmt",))
+    st = cfgs.stmt_nodes(lambda s: any(call_name(c) == "self.notifier.start" for c in own_calls(s)), kinds=("stmt",))
+    if mk and st and not must_pass(cfgs, passes, mk + st):
+        # and when the flag is set the client *is* created: the true edge leads to the creation on every path
+        ctx.ok(rid, cfgs.ast_of(mk[0]), "setup: NotifyClient created and started iff Config.should_run_notifier")
     else:
-        ctx.bad(finding_func(P, rid, su, "setup no longer creates and starts the notifier client when Config.should_run_notifier", text="def setup(...) :: notifier"))
+        ctx.bad(finding_func(P, rid, su, "setup no longer creates and starts the notifier client exactly when Config.should_run_notifier", text="def setup(...) :: notifier"))
 
 
 def qual_fn(fn):
